@@ -109,6 +109,8 @@ def _tensors(n, rng, count):
 BOXES = {
     "unit": ([Fr(0), Fr(0), Fr(0)], [Fr(1), Fr(1), Fr(1)]),
     "skew": ([Fr(-1), Fr(1, 2), Fr(2)], [Fr(1, 2), Fr(2), Fr(5)]),
+    # a small box far from the origin (coordinates 1e3 times the box size): used for 1 and 2 parameters
+    "far": ([Fr(1000), Fr(1000), Fr(1000)], [Fr(1001), Fr(10013, 10), Fr(1002)]),
 }
 
 
@@ -173,6 +175,8 @@ def run(rep):
                 for bname, (blo, bhi) in BOXES.items():
                     if quick and n == 3 and bname == "unit" and len(set(npt)) == 1 and npt[0] != 3:
                         continue
+                    if bname == "far" and (n == 3 or (quick and len(set(npt)) > 1)):
+                        continue
                     low_f, high_f = blo[:n], bhi[:n]
                     low = np.array([float(v) for v in low_f])
                     high = np.array([float(v) for v in high_f])
@@ -192,6 +196,15 @@ def run(rep):
                             viol("AdaptiveInterpolationTable: construction returns normally", "construction", cfg, A)
                             continue
                         exact = np.array([float(f.exact(X[:, k])) for k in range(X.shape[1])])
+                        if bname == "unit" and len(set(npt)) == 1:
+                            # adaptive table with the DEFAULT base point (the origin, a node of the unit-box grids): same values
+                            ok, A0 = _call(lambda: AdaptiveInterpolationTable(h.copy(), function=f))
+                            okv, V0 = _call(lambda: A0.interpolate(X.copy())) if ok else (False, A0)
+                            if not (ok and okv):
+                                viol("AdaptiveInterpolationTable: default base point works for any number of parameters", f"{n} parameter(s)", cfg, V0)
+                            elif np.shape(V0)[-1] != exact.size or float(np.max(np.abs(np.ravel(V0) - exact))) > 1e-12 * (1.0 + float(np.max(np.abs(exact)))):
+                                viol("AdaptiveInterpolationTable: default base point works for any number of parameters", f"{n} parameter(s)", cfg,
+                                     f"max error {float(np.max(np.abs(np.ravel(V0) - exact))) if np.shape(V0)[-1] == exact.size else np.shape(V0)}")
                         # node values for scaling
                         nodes = itertools.product(*[[lo + (hi - lo) * Fr(k, m - 1) for k in range(m)] for lo, hi, m in zip(low_f, high_f, npt)])
                         scale = 1.0 + max(abs(float(f.exact([float(v) for v in nd]))) for nd in nodes)
